@@ -322,15 +322,22 @@ func genScenario(src *tape.Source) *scenario {
 		// what the half-written oracle is about.
 		sc.Files = sc.Files[:1]
 	}
-	if (sc.Cmd == "validate" || sc.Cmd == "lint" && !sc.AutoFix) && input < 6 && src.Intn(6, "c19.missing") == 5 {
-		// an input that cannot be read at all: it fails, and reports must name it
-		sc.Files = append(sc.Files, fileSpec{Name: "missing.sql", Kind: "missing"})
+	if (sc.Cmd == "validate" || sc.Cmd == "lint") && input < 6 && src.Intn(6, "c19.missing") == 5 {
+		// an input that cannot be read at all: it fails, and reports must name it -
+		// wherever it stands among the arguments
+		at := src.Intn(len(sc.Files)+1, "c19.missingat")
+		fs := append([]fileSpec{}, sc.Files[:at]...)
+		fs = append(fs, fileSpec{Name: "missing.sql", Kind: "missing"})
+		sc.Files = append(fs, sc.Files[at:]...)
 	}
 	if sc.OutFile != "" && src.Intn(2, "c19.outpre") == 1 {
 		s := "-- previous output that must not be half-overwritten\nSELECT 'old';\n"
 		sc.OutPre = &s
 	}
-	hasMissing := len(sc.Files) > 0 && sc.Files[len(sc.Files)-1].Kind == "missing"
+	hasMissing := false
+	for _, f := range sc.Files {
+		hasMissing = hasMissing || f.Kind == "missing"
+	}
 	if dm := src.Intn(6, "c19.dirmode"); input < 6 && (sc.Cmd == "validate" || sc.Cmd == "lint") && (dm == 5 || hasMissing && dm >= 3) {
 		// the inputs are found by walking a directory: every matching file at any
 		// depth counts, nothing else does
@@ -341,14 +348,14 @@ func genScenario(src *tape.Source) *scenario {
 			}
 			sc.Files[i].Name = []string{"d/", "d/sub/", "d/sub/deeper/", "d/[old]/", "d/v1?/"}[src.Intn(5, "c19.depth")] + sc.Files[i].Name
 		}
-		if len(sc.Files) >= 2 && sc.Files[1].Kind != "missing" && src.Intn(3, "c19.twins") == 2 {
+		if len(sc.Files) >= 2 && sc.Files[0].Kind != "missing" && sc.Files[1].Kind != "missing" && src.Intn(3, "c19.twins") == 2 {
 			// the same file name (and text) in two directories: two inputs, not one
 			sc.Files[0].Name = "d/a/q.sql"
 			sc.Files[1].Name = "d/b/q.sql"
 			sc.Files[1].Content, sc.Files[1].Kind = sc.Files[0].Content, sc.Files[0].Kind
 		}
 	}
-	if input < 6 && !sc.DirMode && src.Intn(8, "c19.symlink") == 7 {
+	if input < 6 && !sc.DirMode && sc.Files[0].Kind != "missing" && src.Intn(8, "c19.symlink") == 7 {
 		sc.Files[0].Link = true
 	}
 	switch {
@@ -374,9 +381,15 @@ func genScenario(src *tape.Source) *scenario {
 		case sc.Cmd == "parse":
 			sc.Args = append(sc.Args, sc.Files[0].Name)
 		case sc.DirMode:
+			first := src.Intn(2, "c19.missingfirst") == 1
+			for _, f := range sc.Files {
+				if f.Kind == "missing" && first {
+					sc.Args = append(sc.Args, f.Name)
+				}
+			}
 			sc.Args = append(sc.Args, "-r", "d")
 			for _, f := range sc.Files {
-				if f.Kind == "missing" {
+				if f.Kind == "missing" && !first {
 					sc.Args = append(sc.Args, f.Name)
 				}
 			}
